@@ -23,6 +23,7 @@ RULE = (
     "DataFrame/Dicts/Records) with random append sequences incl. empty appends, context-manager and explicit "
     "finalize. Non-trivial = N>=2 rows and (readers) chunk size < N, (writers) >=2 appends; distinct = "
     "(reader kind, table hash, chunk size, columns) / (writer kind, table hash, append split, buffer)."
+    " Delimited text uses the default tab or an explicit sep (, ; |) via from_path / CSVFileReader / CSVFileWriter; an unrelated reader (writer) with another delimiter is created and used while the one under test is alive."
 )
 ASSUMPTIONS = [
     "strings are plain tokens (no NA-like / numeric-looking text: type inference of delimited text is outside the statement)",
@@ -105,9 +106,13 @@ def _make_reader(kind, df, d, rng):
     import pyarrow.parquet as pq
 
     if kind == "csv":
-        p = Path(d) / "t.csv"
-        df.to_csv(p, sep="\t", index=False)
-        return td.TabularDataReader.from_path(p), df
+        # delimiter: the default tab, or another one handed to the reader explicitly (documented `sep` argument)
+        sep = str(rng.choice(["\t", "\t", ",", ";", "|"]))
+        p = Path(d) / ("t.csv" if sep == "\t" or rng.random() < 0.5 else "t.txt")
+        df.to_csv(p, sep=sep, index=False)
+        if sep == "\t":
+            return td.TabularDataReader.from_path(p), df
+        return (td.TabularDataReader.from_path(p, sep=sep) if rng.random() < 0.5 else td.CSVFileReader(p, sep=sep)), df
     if kind == "parquet":
         p = Path(d) / "t.parquet"
         pq.write_table(pa.Table.from_pandas(df, preserve_index=False), p,
@@ -149,6 +154,7 @@ READER_KINDS = ["csv", "parquet", "df", "mapped", "joined", "computed"]
 
 
 def run_readers(case):
+    td = core.mk("mokapot.tabular_data")
     rng = core.seed_seq(case["seed"], "C13", "readers", case["index"])
     res = Result(case)
     evals = nt = 0
@@ -165,6 +171,12 @@ def run_readers(case):
                     res.violate("crash", core.exc_sig(info) + "/make_" + kind, msg=info["msg"])
                     continue
                 raise
+            # an unrelated reader with another delimiter is created (and used) while the reader under test is alive
+            by = Path(d) / "bystander.csv"
+            by_sep = str(rng.choice([",", ";", "\t"]))
+            pd.DataFrame({"u": [1, 2], "v": ["a", "b"]}).to_csv(by, sep=by_sep, index=False)
+            bystander = td.CSVFileReader(by, sep=by_sep)
+            core.Call(bystander.read)
             allcols = list(exp_all.columns)
             subsets = [None, allcols]
             k = int(rng.integers(1, len(allcols) + 1))
@@ -247,13 +259,23 @@ def run_writers(case):
         cuts = sorted(rng.integers(0, n + 1, size=k - 1).tolist())
         pieces = [df.iloc[a:b] for a, b in zip([0] + cuts, cuts + [n])]
         ctx = bool(rng.integers(0, 2))
-        extra = dict(suffix=suffix, n=n, buffer=buf, buffer_type=btype.value, appends=[len(p) for p in pieces], ctx=ctx)
+        wsep = str(rng.choice(["\t", "\t", ",", ";"]))
+        extra = dict(suffix=suffix, n=n, buffer=buf, buffer_type=btype.value, appends=[len(p) for p in pieces], ctx=ctx, sep=wsep)
         with core.scratch("c13w") as d:
             path = Path(d) / f"out{suffix}"
 
             def go():
+                kw = {}
+                if suffix == ".csv" and wsep != "\t":
+                    kw["sep"] = wsep
                 w = td.TabularDataWriter.from_suffix(path, list(df.columns), buffer_size=buf, buffer_type=btype,
-                                                     column_types=_np_types(df))
+                                                     column_types=_np_types(df), **kw)
+                # another writer / reader pair with another delimiter is alive at the same time
+                other = td.CSVFileWriter(Path(d) / "other.csv", ["u"], sep="," if wsep != "," else ";")
+                other.initialize()
+                other.append_data(pd.DataFrame({"u": [1]}))
+                other.finalize()
+                other.get_associated_reader().read()
 
                 reuse = []  # some callers collect every batch in one list object that they clear and refill
                 reuse_list = bool(rng.integers(0, 2))
